@@ -89,6 +89,11 @@ def poison(comp):
             L = len(comp._buf)
             if 0 <= comp._buf_len <= L:
                 comp._buf[: L - comp._buf_len] = np.nan
+            if hasattr(comp, "_hist") and hasattr(comp, "_hist_len"):
+                # tail history kept for finalize: only the last _hist_len entries are live
+                H = len(comp._hist)
+                if 0 <= comp._hist_len <= H:
+                    comp._hist[: H - comp._hist_len] = np.nan
     except AttributeError:
         pass  # refactored code: mask disabled, full state hashed (over-fine, sound)
 
